@@ -181,9 +181,64 @@ Inductive walk_result (A : Type) :=
 Arguments WOk {A} _ _.
 Arguments WOutOfSync {A}.
 
-(* perform_compaction's `'looping` (not a GC): every entry of the merged inputs goes to the
-   multi-builder; discard stays Setsum::default() *)
-Definition rewrite_walk {A} (acc0 : A) (main : list entry) : walk_result A := WOk main acc0.
+(* ---- SstMultiBuilder (sst/src/lib.rs), as far as cutting the stream into files goes.
+   [mb_cur] = the entries put into the open SstBuilder (None: no builder open), [mb_done] = the
+   sealed files in the order their paths were pushed (`paths`: a path is pushed when its builder is
+   created, and a builder is created only by get_builder on behalf of a put/del, so the open
+   builder's path is the last one).  Sizes are external: [target_full es] stands for
+   `size >= TABLE_FULL_SIZE || size >= options.target_file_size` of a builder holding es,
+   [minimum_full es] for `size >= TABLE_FULL_SIZE || size >= options.minimum_file_size`;
+   both are arbitrary here. ---- *)
+Record mbuilder := mkMB { mb_cur : option (list entry); mb_done : list (list entry) }.
+
+Section MultiBuilder.
+  Variable target_full : list entry -> bool.
+  Variable minimum_full : list entry -> bool.
+
+  (* seal_builder *)
+  Definition mb_seal_builder (mb : mbuilder) : mbuilder :=
+    match mb_cur mb with
+    | Some es => mkMB None (mb_done mb ++ [es])
+    | None => mb
+    end.
+
+  (* split_hint *)
+  Definition mb_split_hint (mb : mbuilder) : mbuilder :=
+    match mb_cur mb with
+    | Some es => if minimum_full es then mb_seal_builder mb else mb
+    | None => mb
+    end.
+
+  (* put / del = get_builder()?.put(..): an open builder that is full is sealed and a fresh one
+     created (get_builder recurses once), no builder open: one is created *)
+  Definition mb_put (mb : mbuilder) (e : entry) : mbuilder :=
+    match mb_cur mb with
+    | Some es =>
+        if target_full es then mkMB (Some [e]) (mb_done mb ++ [es])
+        else mkMB (Some (es ++ [e])) (mb_done mb)
+    | None => mkMB (Some [e]) (mb_done mb)
+    end.
+
+  (* seal: the open builder, if any, is sealed; the paths are returned in creation order *)
+  Definition mb_seal (mb : mbuilder) : list (list entry) :=
+    match mb_cur mb with
+    | Some es => mb_done mb ++ [es]
+    | None => mb_done mb
+    end.
+
+  (* perform_compaction's `'looping` (not a GC): for every entry of the merging cursor, first
+     `if !top_level && split_hint.witness(key) { sstmb.split_hint() }` — the witness is a stateful
+     oracle over the current version, here an arbitrary boolean per entry — then put/del.
+     Nothing is discarded: compaction_finish gets Setsum::default(). *)
+  Fixpoint rewrite_loop (main : list (bool * entry)) (mb : mbuilder) : mbuilder :=
+    match main with
+    | [] => mb
+    | (hint, e) :: r => rewrite_loop r (mb_put (if hint then mb_split_hint mb else mb) e)
+    end.
+
+  Definition rewrite_outputs (main : list (bool * entry)) : list (list entry) :=
+    mb_seal (rewrite_loop main (mkMB None [])).
+End MultiBuilder.
 
 (* perform_garbage_collection's `'looping`: [main] is the merging cursor over the inputs, [g] the
    collector over an independent clone of it, [nxt] is gc_next.  [add] is `discard += setsum(kvr)`
